@@ -18,4 +18,6 @@ python3 tools/ser2lean.py /repo >/dev/null
 python3 tools/acc2lean.py /repo >/dev/null
 python3 tools/nfa2lean.py /repo >/dev/null
 python3 tools/dbl2lean.py /repo >/dev/null
+python3 tools/map2lean.py /repo >/dev/null
+python3 tools/top2lean.py /repo >/dev/null
 (cd lean && lake build driver >/dev/null 2>&1)
